@@ -205,8 +205,11 @@ class _Continue(Exception):
 
 
 class AEval:
-    def __init__(self, module=None, intrinsics=None, max_depth=6, max_steps=200000, typed=False):
+    def __init__(self, module=None, intrinsics=None, max_depth=6, max_steps=200000, typed=False, long_bits=None):
         self.module = module
+        # long_bits=32: `long` / `unsigned long` are given the width they have on the 8- and 32-bit targets of the library (the
+        # parser runs with the host's LP64 model, where they are 64 bits wide)
+        self.long_bits = long_bits
         self.intr = intrinsics or {}
         self.max_depth = max_depth
         self.max_steps = max_steps
@@ -229,7 +232,15 @@ class AEval:
         if not self.typed or not ty:
             return None
         from .cxx import int_type
-        return int_type(ty.replace('&', '').strip())
+        it = int_type(ty.replace('&', '').strip())
+        if it is not None and self.long_bits and it[0] == 64 and self._is_long(ty):
+            it = (self.long_bits, it[1])
+        return it
+
+    @staticmethod
+    def _is_long(ty):
+        t_ = (ty or '').replace('const', '').replace('&', '').replace('volatile', '').strip()
+        return t_ in ('long', 'unsigned long', 'long int', 'unsigned long int', 'long unsigned int')
 
     def ref_of(self, e, env, depth):
         """storage cell of an l-value expression"""
@@ -248,6 +259,8 @@ class AEval:
             p = self.ev(e.a[0], env, depth)
             if isinstance(p, Ref):
                 return p
+            if self.typed and isinstance(p, list):
+                return Ref(p, 0)         # *array: its first element
         raise AnalysisError('abstract evaluation: %s is passed by reference but is not a storage cell (%s)' % (show(e), e.loc))
 
     # -- calls --------------------------------------------------------------------------------
@@ -600,12 +613,20 @@ class AEval:
             if a[0] == '||':
                 l = self.ev(a[1], env, depth)
                 return l if self.truth(l) else self.ev(a[2], env, depth)
-            return self.binop(a[0], self.ev(a[1], env, depth), self.ev(a[2], env, depth), e.loc)
+            r = self.binop(a[0], self.ev(a[1], env, depth), self.ev(a[2], env, depth), e.loc)
+            if self.typed and a[0] in ('+', '-', '*', '<<') and isinstance(r, int) and not isinstance(r, bool) and e.ty:
+                it = self._ity(e.ty)
+                if it is not None and not it[1]:
+                    r = self._wrap(r, it)        # unsigned arithmetic is modular also when the result is used in place
+            return r
         if k == 'cond':
             return self.ev(a[1], env, depth) if self.truth(self.ev(a[0], env, depth)) else self.ev(a[2], env, depth)
         if k == 'cast':
             v = self.ev(a[2], env, depth)
-            return self._wrap(v, (a[0], a[1])) if (self.typed and isinstance(a[0], int)) else v
+            if self.typed and isinstance(a[0], int):
+                bits = self.long_bits if (self.long_bits and a[0] == 64 and self._is_long(e.ty)) else a[0]
+                return self._wrap(v, (bits, a[1]))
+            return v
         if k == 'ptrcast':
             return self.ev(a[1], env, depth)
         if k == 'addr':
